@@ -222,11 +222,16 @@ class Desugar(ast.NodeTransformer):
         stores = {x.id for b in gbody for x in ast.walk(b) if isinstance(x, ast.Name) and isinstance(x.ctx, (ast.Store, ast.Del))}
         pre: List[ast.stmt] = []
         mapping: Dict[str, ast.expr] = {}
+        thunks: Dict[str, ast.expr] = {}
         for p_ in params:
             val = bound.get(p_, defaults.get(p_))
             if val is None:
                 return None
-            if p_ not in stores and _simple(val):
+            if p_ not in stores and isinstance(val, ast.Lambda) and not (val.args.args or val.args.posonlyargs or val.args.kwonlyargs or val.args.vararg or val.args.kwarg) and \
+                    all(isinstance(u, ast.Call) and u.func is x_ for x_ in (y for b in gbody for y in ast.walk(b) if isinstance(y, ast.Name) and y.id == p_)
+                        for u in [next((c_ for b in gbody for c_ in ast.walk(b) if isinstance(c_, ast.Call) and c_.func is x_), None)]):
+                thunks[p_] = val.body           # a parameterless callback that the generator only calls: its body at each call
+            elif p_ not in stores and _simple(val):
                 mapping[p_] = val
             else:
                 nm = f"{p_}__g{k}"
@@ -236,10 +241,17 @@ class Desugar(ast.NodeTransformer):
         for p_ in params:
             if p_ in stores:
                 rename[p_] = f"{p_}__g{k}"
+        for p_ in thunks:
+            rename.pop(p_, None)
 
         outer = self
 
         class R(ast.NodeTransformer):
+            def visit_Call(self, n: ast.Call):
+                if isinstance(n.func, ast.Name) and n.func.id in thunks and not n.args and not n.keywords:
+                    return ast.copy_location(copy.deepcopy(thunks[n.func.id]), n)
+                return self.generic_visit(n)
+
             def visit_Name(self, n: ast.Name):
                 if n.id in rename:
                     return ast.copy_location(ast.Name(id=rename[n.id], ctx=n.ctx), n)
@@ -487,6 +499,24 @@ class Desugar(ast.NodeTransformer):
             parts = self._comprehension_loop(node.value, node)
             if parts is not None:
                 return self._list_building(node.targets[0].id, parts, node)
+        return self.generic_visit(node)
+
+    def visit_Expr(self, node: ast.Expr):
+        v = node.value
+        if self.func_stack and isinstance(v, ast.Call) and isinstance(v.func, ast.Attribute) and v.func.attr == "extend" and len(v.args) == 1 and not v.keywords \
+                and _simple(v.func.value) and self._generator_call(v.args[0]) is not None:
+            # xs.extend(gen(...))  ->  for v in gen(...): xs.append(v)
+            self.tmp += 1
+            nm = f"__e{self.tmp}"
+            app = ast.Expr(value=ast.Call(func=ast.Attribute(value=copy.deepcopy(v.func.value), attr="append", ctx=ast.Load()), args=[ast.Name(id=nm, ctx=ast.Load())], keywords=[]))
+            loop = ast.For(target=ast.Name(id=nm, ctx=ast.Store()), iter=v.args[0], body=[app], orelse=[])
+            ast.copy_location(loop, node)
+            for x in ast.walk(loop):
+                if isinstance(x, (ast.expr, ast.stmt)) and not hasattr(x, "lineno"):
+                    ast.copy_location(x, node)
+            ast.fix_missing_locations(loop)
+            r = self.visit(loop)
+            return r
         return self.generic_visit(node)
 
     def visit_AnnAssign(self, node: ast.AnnAssign):
@@ -739,20 +769,36 @@ class Desugar(ast.NodeTransformer):
             if isinstance(x, ast.Name) and isinstance(x.ctx, (ast.Store, ast.Del)):
                 stores[x.id] = stores.get(x.id, 0) + 1
         params = {a.arg for a in node.args.posonlyargs + node.args.args + node.args.kwonlyargs}
-        for st in node.body:
+        nested = {id(x) for f_ in ast.walk(node) if isinstance(f_, (ast.FunctionDef, ast.AsyncFunctionDef, ast.Lambda, ast.ClassDef)) and f_ is not node for x in ast.walk(f_)}
+        loops = {id(x) for l_ in ast.walk(node) if isinstance(l_, (ast.For, ast.While)) for x in ast.walk(l_) if x is not l_}
+        for st in [x for x in ast.walk(node) if isinstance(x, ast.Assign) and id(x) not in nested and id(x) not in loops]:
             if isinstance(st, ast.Assign) and len(st.targets) == 1 and isinstance(st.targets[0], ast.Name) and isinstance(st.value, ast.Call) and \
-                    ast.unparse(st.value.func) in ("functools.partial", "partial") and st.value.args and isinstance(st.value.args[0], (ast.Name, ast.Attribute)):
+                    ast.unparse(st.value.func) in ("functools.partial", "partial") and st.value.args and isinstance(st.value.args[0], (ast.Name, ast.Attribute)) and \
+                    (not isinstance(st.value.args[0], ast.Attribute) or _simple(st.value.args[0])):
                 c = st.value
                 nm = st.targets[0].id
                 if stores.get(nm) != 1 or nm in params or not all(_simple(a) for a in c.args) or not all(k.arg is not None and _simple(k.value) for k in c.keywords):
                     continue
-                used = {x.id for a in list(c.args[1:]) + [k.value for k in c.keywords] for x in ast.walk(a) if isinstance(x, ast.Name)}
-                if any(stores.get(u, 0) > 0 for u in used):
+                used = {x.id for a in list(c.args) + [k.value for k in c.keywords] for x in ast.walk(a) if isinstance(x, ast.Name)}
+                earlier = {x.id for x in ast.walk(node) if isinstance(x, ast.Name) and isinstance(x.ctx, ast.Store) and
+                           (x.lineno, x.col_offset) < (st.lineno, st.col_offset)}
+                if any(stores.get(u, 0) > 1 or (stores.get(u, 0) == 1 and u not in earlier and u not in params) for u in used):
                     continue
-                # only ever called
+                # only ever called, or handed to a generator helper that is expanded in place (where it ends up being called)
                 loads = [x for x in ast.walk(node) if isinstance(x, ast.Name) and x.id == nm and isinstance(x.ctx, ast.Load)]
                 called = [x for x in ast.walk(node) if isinstance(x, ast.Call) and isinstance(x.func, ast.Name) and x.func.id == nm]
-                if loads and len(loads) == len(called):
+                handed = [a for x in ast.walk(node) if isinstance(x, ast.Call) and isinstance(x.func, ast.Name) and x.func.id in self.generators
+                          for a in list(x.args) + [k.value for k in x.keywords] if isinstance(a, ast.Name) and a.id == nm]
+                def block_of(stmt):
+                    for par in ast.walk(node):
+                        for fld in ("body", "orelse", "finalbody"):
+                            blk = getattr(par, fld, None)
+                            if isinstance(blk, list) and any(b is stmt for b in blk):
+                                return blk
+                    return None
+                blk = block_of(st)
+                inside = {id(x) for b in (blk[blk.index(st) + 1:] if blk else []) for x in ast.walk(b)}
+                if loads and len(loads) == len(called) + len(handed) and all(id(x) in inside for x in loads):
                     out[nm] = c
         return out
 
@@ -765,8 +811,12 @@ class Desugar(ast.NodeTransformer):
             if lp:
                 self.partials.update(lp)
                 self.local_partial_names = getattr(self, "local_partial_names", set()) | set(lp)
-                node.body = [st for st in node.body if not (isinstance(st, ast.Assign) and len(st.targets) == 1 and isinstance(st.targets[0], ast.Name) and st.targets[0].id in lp
-                                                             and st.value is lp[st.targets[0].id])]
+                class Drop(ast.NodeTransformer):
+                    def visit_Assign(self, st):
+                        if len(st.targets) == 1 and isinstance(st.targets[0], ast.Name) and st.targets[0].id in lp and st.value is lp[st.targets[0].id]:
+                            return ast.copy_location(ast.Pass(), st)
+                        return st
+                Drop().visit(node)
         try:
             if self.carriers and not self.class_is_carrier:
                 self._inline_carriers(node)
